@@ -90,7 +90,8 @@ def main():
             meta["analysis_errors"] = errors
             meta["what_was_run"] = "scratch worktree: git apply; pytest (61 passed); demo digest with/without patch equal; qcolint check <all> --src <scratch>/src"
             os.makedirs(dst, exist_ok=True)
-            shutil.copy(patch, os.path.join(dst, "patch.diff"))
+            if os.path.abspath(patch) != os.path.abspath(os.path.join(dst, "patch.diff")):
+                shutil.copy(patch, os.path.join(dst, "patch.diff"))
             if not checks_only and os.path.exists(f"{outdir}/{k}_demo.py"):
                 shutil.copy(f"{outdir}/{k}_demo.py", os.path.join(dst, "demo.py"))
             json.dump(meta, open(os.path.join(dst, "meta.json"), "w"), indent=1)
